@@ -717,6 +717,7 @@ func c10Panics(c *Ctx, scope map[*ssa.Function]bool) {
 						{"weightedrand", "assertion on a weightedrand choice item that the leader rotation stored as hotstuff.ID"},
 						{".PickSource(", "assertion on a weightedrand choice item that the leader rotation stored as hotstuff.ID"},
 						{"(*sync.Pool).Get(", "assertion on a value the pool itself stored (sync.Pool with a typed New)"},
+						{"hs.ReplicaInfo.PubKey", "assertion on the configured public key of a known replica (local configuration, not peer input)"},
 					} {
 						if strings.Contains(k, pat.sub) {
 							structural[shortName(declaredParent(fn))+"|"+p.InstrPos(in)] = pat.why
